@@ -12,7 +12,7 @@ Import ListNotations.
 
 Inductive lmode : Type := LPreserve | LFollow | LSkip.
 Inductive dentry : Type := DAbsent | DLink (target : N) | DFile (content : N) | DDir.
-Inductive cwdres : Type := RMissing | RDir | RFile (content : N).     (* raw target seen from the CWD *)
+Inductive cwdres : Type := RMissing | RDir | RFile (content : N).     (* what the link resolves to, a relative target taken from the directory that holds the link (as the kernel resolves it) *)
 
 Record slink : Type := mk_slink { l_target : N; l_cwd : cwdres }.
 
